@@ -29,7 +29,7 @@ theorem classOps_cacheless (E : Env) : classOps E .SolverCacheless = clStage E 4
 
 /-- the no-op hook is fine for any frontend predicate -/
 theorem hookOk_noop (A : List ZCon) (P : Frontend → Prop) : HookOk (fun _ => (pure () : M Unit)) A P :=
-  ⟨fun _ s => ⟨s.fe, rfl⟩, fun _ _ h _ => h⟩
+  ⟨fun _ s => ⟨s.fe, rfl⟩, fun _ _ h _ _ => h⟩
 
 /-! ### `_constraint_filter` -/
 
